@@ -7,6 +7,9 @@ Model driver for C18 (modules). One request line = one scenario:
   tact  = (a <act>) | (main <mk> <act>*) | (test <name> <mk> <act>*)
   act   = (print mk) | (export k v) | (assign k v) | (exportid k src) | (show mk k) | (import <item>*)
         | (from m <item>*) | (fromall m) | (try m mk) | (fail mk)
+        | (pat <0|1 export> (<target>*) (<rhs>*))
+  target = (id k) | (ign) | (map <entry>*)      entry = (e key target) | (e key _)
+  rhs   = (lit n) | (ref k)
   item  = (i name) | (i name alias)
   op    = (op (<dir name>*) <0|1 exportTop> <tact>*)
 
@@ -35,6 +38,7 @@ def errStr : Err → String
 def display (cache : Path → Option Entry) : Nat → V → String
   | _, .int n => toString n
   | _, .core _ => "<core>"
+  | _, .null => "null"
   | 0, .mref _ => "<deep>"
   | d + 1, .mref p =>
     match resolve cache (.mref p) with
@@ -47,6 +51,7 @@ def display (cache : Path → Option Entry) : Nat → V → String
 def canon (cache : Path → Option Entry) : Nat → V → String
   | _, .int n => s!"i{n}"
   | _, .core _ => "<core>"
+  | _, .null => "null"
   | 0, .mref _ => "<deep>"
   | d + 1, .mref p =>
     match resolve cache (.mref p) with
@@ -80,6 +85,22 @@ def pItem : Sexp → Option Item
   | .list [.atom "i", n, a] => do pure { name := (← n.nat?), as_ := some (← a.nat?) }
   | _ => none
 
+def pEntry : Sexp → Option PEntry
+  | .list [.atom "e", k, .atom "_"] => do pure { key := (← k.nat?), target := none }
+  | .list [.atom "e", k, t] => do pure { key := (← k.nat?), target := some (← t.nat?) }
+  | _ => none
+
+def pTarget : Sexp → Option Target
+  | .list [.atom "id", k] => do pure (.id (← k.nat?))
+  | .list [.atom "ign"] => some .ignored
+  | .list (.atom "map" :: es) => do pure (.mapPat (← es.mapM pEntry))
+  | _ => none
+
+def pRhs : Sexp → Option Rhs
+  | .list [.atom "lit", n] => do pure (.lit (← n.int?))
+  | .list [.atom "ref", k] => do pure (.ref (← k.nat?))
+  | _ => none
+
 def pAct : Sexp → Option Act
   | .list [.atom "print", mk] => do pure (.print (← mk.nat?))
   | .list [.atom "export", k, v] => do pure (.export_ (← k.nat?) (← v.int?))
@@ -91,6 +112,8 @@ def pAct : Sexp → Option Act
   | .list [.atom "fromall", m] => do pure (.fromAll (← m.nat?))
   | .list [.atom "try", m, mk] => do pure (.tryImport (← m.nat?) (← mk.nat?))
   | .list [.atom "fail", mk] => do pure (.fail (← mk.nat?))
+  | .list [.atom "pat", e, .list ts, .list rs] => do
+    pure (.assignPat ((← e.nat?) == 1) (← ts.mapM pTarget) (← rs.mapM pRhs))
   | _ => none
 
 def pTAct : Sexp → Option TAct
